@@ -26,3 +26,9 @@ package echo
 //@ requires e != nil && e.sq != nil && !closed(e.sq)
 //@ ensures result == (sends(e.sq) == 1)
 //@ ensures sends(e.sq) <= 1
+// a refused submission is answered by the caller (aio.EnqueueSQE): the subsystem never invokes the callback here
+//@ funcvalue \.Callback$ records callback
+//@ ensures [body C12] calls("callback") == 0
+// called on the kernel loop: never waits (the only send is the non-blocking one)
+//@ site send assert false
+//@ site select assert !blocking
